@@ -339,6 +339,28 @@ theorem mstep_count (C : Counter) (s s' : St) (i : Mi) (h : mstep s i = .ok s') 
     split at h
     · simp only [pure, Except.pure] at h; cases h; exact ok
     · cases h
+  | inplace d =>
+    simp only [mstep] at h
+    split at h
+    · cases h
+    · split at h
+      · cases h
+      · simp only [pure, Except.pure] at h; cases h; exact ok
+  | settext d w =>
+    simp only [mstep] at h
+    split at h
+    · cases h
+    · rename_i cell hd
+      split at h
+      · cases h
+      · simp only [pure, Except.pure] at h
+        cases h
+        unfold CountOK St.setCell at *
+        simp only
+        rw [lc_set_same C.k0 s.heap d cell _ hd ?_ ?_]
+        · exact ok
+        · rfl
+        · rfl
 
 theorem runMi_count (C : Counter) : ∀ (prog : List Mi) (s s' : St), runMi s prog = .ok s' → CountOK C s → CountOK C s' := by
   intro prog
